@@ -1,4 +1,4 @@
-import CTV.Lemmas.RacesChrome
+import CTV.Lemmas.RacesPolicy
 import CTV.Lemmas.Lockset
 /-!
 # C17 — Multi-log submission returns a policy-satisfying SCT set or says it did not
@@ -15,24 +15,6 @@ set_option linter.unusedVariables false
 
 namespace C17
 open CTV.Model.Races
-
-/-- the state after running schedule `ops` from the start of a `GetSCTs` call -/
-abbrev after (r : Run) (ops : List Op) : St := exec r (St.init r) ops
-
-theorem inv_after {r : Run} (wf : WF r) (ops : List Op) : Inv r (after r ops) :=
-  inv_exec wf ops (inv_init wf)
-
-/-! ## Running example (also the F10a history): one Google log (1), one non-Google log (2), Chrome-shaped groups -/
-
-def cfg2 : Cfg := [⟨1, [1], 1, false⟩, ⟨2, [2], 1, false⟩, ⟨0, [1, 2], 2, true⟩]
-def run2 : Run := ⟨cfg2, fun g => if g = 1 then [1] else if g = 2 then [2] else if g = 0 then [1, 2] else []⟩
-
-theorem wf_run2 : WF run2 where
-  names_nodup := by decide
-  session_sub := by
-    intro g hg l hl
-    simp only [run2, cfg2, List.mem_cons, List.not_mem_nil, or_false] at hg
-    rcases hg with rfl | rfl | rfl <;> simpa [run2] using hl
 
 /-- both logs answer quickly: success -/
 def opsFast : List Op := [.timerFire 1 1, .request 1 1, .timerFire 2 2, .request 2 2,
@@ -163,22 +145,14 @@ theorem chrome_groups (m : Int) (ls : List LogInfo) :
       [⟨1, dedup ((ls.filter (fun li => li.google == true)).map (·.id)), 1, false⟩,
        ⟨2, dedup ((ls.filter (fun li => li.google == false)).map (·.id)), 1, false⟩,
        ⟨baseName, dedup (ls.map (·.id)), policyTotal m, true⟩] := by
-  simp [rawGroups, rawGroups.go, subgroups, Gen.Policy.chromeSubgroups, incCount, chrome_thresholds]
+  rw [chrome_groups_raw, chrome_thresholds]
 
 /-- the Apple policy's single group: All-logs ≥ total by lifetime -/
 theorem apple_groups (m : Int) (ls : List LogInfo) :
     rawGroups .apple m ls = [⟨baseName, dedup (ls.map (·.id)), policyTotal m, true⟩] := by
-  simp [rawGroups, rawGroups.go, subgroups, Gen.Policy.appleSubgroups, incCount, apple_thresholds]
+  rw [apple_groups_raw, apple_thresholds]
 
 theorem base_name_is_all_logs : Gen.Policy.baseName = "All-logs" ∧ Gen.Policy.baseGroupAllOperators = true := by decide
-
-theorem policyCfg_some {p : Pol} {m : Int} {ls : List LogInfo} {c : Cfg} (h : policyCfg p m ls = some c) :
-    c = rawGroups p m ls := by
-  unfold policyCfg at h
-  dsimp only at h
-  split at h
-  · cases h; rfl
-  · cases h
 
 /-- **success_satisfies_policy, Chrome**: a nil error means at least one SCT from a Google-operated log, at least one
 from a log of another operator, and at least the lifetime-dependent total. -/
@@ -217,81 +191,6 @@ example : policyCfg .chrome 12 lsTwo = some run2.cfg := by decide
 
 /-! ## Only compatible logs are contacted -/
 
-/-- the certificate's NotAfter lies in the log's temporal interval (a log without interval accepts every date) -/
-def inWindow (notAfter : Int) (li : LogInfo) : Prop :=
-  match li.interval with
-  | none => True
-  | some (a, b) => a ≤ notAfter ∧ notAfter < b
-
-/-- the chain's root, when the distributor checks roots, is a CA and is among the log's accepted roots where those
-are known -/
-def rootAccepted (root : Option (Nat × Bool)) (li : LogInfo) : Prop :=
-  match root with
-  | none => True
-  | some (rt, isCA) => isCA = true ∧ (li.roots = none ∨ ∃ rs, li.roots = some rs ∧ rt ∈ rs)
-
-theorem mem_compatible {na : Int} {root : Option (Nat × Bool)} {ls : List LogInfo} {li : LogInfo}
-    (h : li ∈ compatible na root ls) : li ∈ ls ∧ li.usable = true ∧ inWindow na li ∧ rootAccepted root li := by
-  unfold compatible at h
-  have key : ∀ li, li ∈ ls.filter (fun li => li.usable && temporalOk na li) → li ∈ ls ∧ li.usable = true ∧ inWindow na li := by
-    intro li h
-    simp only [List.mem_filter, Bool.and_eq_true] at h
-    refine ⟨h.1, h.2.1, ?_⟩
-    have ht := h.2.2
-    unfold temporalOk at ht
-    unfold inWindow
-    cases hi : li.interval with
-    | none => trivial
-    | some ab =>
-      obtain ⟨a, b⟩ := ab
-      simp only [hi] at ht
-      exact (temporal_window na a b).mp ht
-  cases root with
-  | none =>
-    obtain ⟨h1, h2, h3⟩ := key li h
-    exact ⟨h1, h2, h3, trivial⟩
-  | some p =>
-    obtain ⟨rt, isCA⟩ := p
-    dsimp only at h
-    cases isCA with
-    | false => simp at h
-    | true =>
-      simp only [if_true] at h
-      have hh := List.mem_filter.mp h
-      obtain ⟨h1, h2, h3⟩ := key li hh.1
-      refine ⟨h1, h2, h3, rfl, ?_⟩
-      have hr := hh.2
-      unfold rootOk at hr
-      cases hroots : li.roots with
-      | none => exact Or.inl rfl
-      | some rs =>
-        simp only [hroots, decide_eq_true_eq] at hr
-        exact Or.inr ⟨rs, rfl, hr⟩
-
-theorem rawGroups_logs {p : Pol} {m : Int} {cl : List LogInfo} {g : Group} (hg : g ∈ rawGroups p m cl)
-    {l : Log} (hl : l ∈ g.logs) : ∃ li ∈ cl, li.id = l := by
-  unfold rawGroups at hg
-  have hgo : ∀ (rows : List (String × Bool × Int)) (i : Nat) (g : Group), g ∈ rawGroups.go cl i rows → ∀ l ∈ g.logs, ∃ li ∈ cl, li.id = l := by
-    intro rows
-    induction rows with
-    | nil => intro i g hg; simp [rawGroups.go] at hg
-    | cons row rest ih =>
-      intro i g hg l hl
-      obtain ⟨nm, goog, mn⟩ := row
-      simp only [rawGroups.go, List.mem_cons] at hg
-      rcases hg with rfl | hg
-      · simp only [mem_dedup, List.mem_map, List.mem_filter] at hl
-        obtain ⟨li, ⟨hli, _⟩, rfl⟩ := hl
-        exact ⟨li, hli, rfl⟩
-      · exact ih (i + 1) g hg l hl
-  rcases List.mem_append.mp hg with h | h
-  · exact hgo _ 0 g h l hl
-  · simp only [List.mem_cons, List.not_mem_nil, or_false] at h
-    subst h
-    simp only [mem_dedup, List.mem_map] at hl
-    obtain ⟨li, hli, rfl⟩ := hl
-    exact ⟨li, hli, rfl⟩
-
 /-- **only_compatible_contacted**: with the groups built by the policy from the compatible part of the log list,
 every log that is ever sent the chain is a usable log of the list whose temporal interval contains NotAfter and whose
 accepted roots, where known and checked, include the chain's root. -/
@@ -328,63 +227,12 @@ theorem liveness_counterexample :
     (∀ g ∈ run2.cfg, g.min ≤ ((([1, 2] : List Log).filter (fun l => decide (l ∈ g.logs))).length : Int)) := by
   decide
 
-theorem nodup_map_inj {α : Type} (f : α → Nat) : ∀ {L : List α}, (L.map f).Nodup → ∀ a ∈ L, ∀ b ∈ L, f a = f b → a = b
-  | [], _, a, ha, _, _, _ => by cases ha
-  | x :: xs, hn, a, ha, b, hb, hab => by
-    simp only [List.map_cons, List.nodup_cons] at hn
-    rcases List.mem_cons.mp ha with rfl | ha' <;> rcases List.mem_cons.mp hb with rfl | hb'
-    · rfl
-    · exact absurd (hab ▸ List.mem_map_of_mem (f := f) hb') hn.1
-    · exact absurd (hab ▸ List.mem_map_of_mem (f := f) ha') hn.1
-    · exact nodup_map_inj f hn.2 a ha' b hb' hab
-
-/-- the groups the Chrome policy builds from a log list with distinct URLs have the Chrome shape, and their minima
-do not exceed their sizes when `LogsByGroup` succeeds -/
-theorem chrome_shape_of_policy {m : Int} {ls : List LogInfo} {r : Run} (hc : policyCfg .chrome m ls = some r.cfg)
-    (hid : (ls.map (·.id)).Nodup) :
-    ∃ G N B, ChromeShape r G N B ∧ G.min ≤ G.logs.length ∧ N.min ≤ N.logs.length ∧ B.min ≤ B.logs.length := by
-  have hcfg := policyCfg_some hc
-  rw [chrome_groups] at hcfg
-  refine ⟨_, _, _, ⟨hcfg, rfl, rfl, rfl, nodup_dedup _, nodup_dedup _, nodup_dedup _, ?_, ?_, ?_, ?_⟩, ?_⟩
-  · intro l h1 h2
-    simp only [mem_dedup, List.mem_map, List.mem_filter] at h1 h2
-    obtain ⟨a, ⟨ha, hga⟩, rfl⟩ := h1
-    obtain ⟨b, ⟨hb, hgb⟩, hab⟩ := h2
-    have := nodup_map_inj (·.id) hid b hb a ha hab
-    subst this
-    simp_all
-  · intro l h1
-    simp only [mem_dedup, List.mem_map, List.mem_filter] at h1 ⊢
-    obtain ⟨a, ⟨ha, _⟩, rfl⟩ := h1
-    exact ⟨a, ha, rfl⟩
-  · intro l h1
-    simp only [mem_dedup, List.mem_map, List.mem_filter] at h1 ⊢
-    obtain ⟨a, ⟨ha, _⟩, rfl⟩ := h1
-    exact ⟨a, ha, rfl⟩
-  · intro l h1
-    simp only [mem_dedup, List.mem_map, List.mem_filter] at h1 ⊢
-    obtain ⟨a, ha, rfl⟩ := h1
-    cases hg : a.google
-    · exact Or.inr ⟨a, ⟨ha, by simp [hg]⟩, rfl⟩
-    · exact Or.inl ⟨a, ⟨ha, by simp [hg]⟩, rfl⟩
-  · unfold policyCfg at hc
-    dsimp only at hc
-    split at hc
-    · rename_i hall
-      rw [chrome_groups, List.all_eq_true] at hall
-      have h1 := (setMinInclusions_ok _ _).mp (hall _ List.mem_cons_self)
-      have h2 := (setMinInclusions_ok _ _).mp (hall _ (List.mem_cons_of_mem _ List.mem_cons_self))
-      have h3 := (setMinInclusions_ok _ _).mp (hall _ (List.mem_cons_of_mem _ (List.mem_cons_of_mem _ List.mem_cons_self)))
-      exact ⟨h1.2, h2.2, h3.2⟩
-    · cases hc
-
 /- FULL (the property's clause): "when enough compatible logs eventually answer successfully and the caller does
    not cancel, GetSCTs reports success" — i.e. the conclusion below without the hypothesis `hearly`. That statement
    is FALSE for this code: `liveness_counterexample` (finding F10a). What is missing is exactly `hearly`: no group
    race may have ended unsuccessfully before the requests completed; in the timed code a group race without
    cancellation ends unsuccessfully only after its last timer fired (i · PostBatchInterval), so `hearly` holds
-   whenever every request completes before the base group's last timer. The Apple shape (a single group) is not
-   covered by this theorem; for it the same statement holds by the same argument with `sumOther = 0`. -/
+   whenever every request completes before the base group's last timer. -/
 /-- **liveness_partial** (Chrome policy): the groups are the ones `ChromeCTPolicy.LogsByGroup` builds from a log
 list with distinct URLs, every member of a group is in its submission session (positive weights), and `ops1` is any
 schedule after which the caller has not cancelled, no contacted log has failed, every goroutine has finished (every
@@ -417,6 +265,41 @@ theorem liveness_partial (m : Int) (ls : List LogInfo) (r : Run) (hc : policyCfg
     ret := by intro ls e h; rw [hret] at h; cases h }
   exact (done_exec ops2 hd hnc).ret
 
+/-- **liveness_partial_apple**: the same for the single group `AppleCTPolicy.LogsByGroup` builds. -/
+theorem liveness_partial_apple (m : Int) (ls : List LogInfo) (r : Run) (hc : policyCfg .apple m ls = some r.cfg)
+    (wf : WF r) (hsess : ∀ g ∈ r.cfg, ∀ l ∈ g.logs, l ∈ r.session g.name)
+    (ops1 ops2 : List Op)
+    (hctx : (after r ops1).ctx = false)
+    (hok : ∀ l, (after r ops1).sub.results l ≠ some .err)
+    (hfin : ∀ g ∈ names r.cfg, ∀ l ∈ r.session g, (after r ops1).gor g l = .finished)
+    (hearly : ∀ g, (after r ops1).gdone g ≠ some false)
+    (hret : (after r ops1).ret = none)
+    (hnc : Op.ctxDone ∉ ops2) :
+    (∀ g ∈ r.cfg, (after r ops1).sub.needs g.name ≤ 0) ∧
+    ∀ res e, (exec r (after r ops1) ops2).ret = some (res, e) → e = false := by
+  obtain ⟨B, sh, hB⟩ := apple_shape_of_policy hc
+  have hall := apple_all_complete wf sh hsess hB ops1 hctx hok hfin
+  refine ⟨hall, ?_⟩
+  have hi := inv_after wf ops1
+  have hd : Done r (after r ops1) := {
+    ctx := hctx
+    needs := by
+      intro g hg
+      simp only [names, List.mem_map] at hg
+      obtain ⟨grp, hgrp, rfl⟩ := hg
+      exact hall grp hgrp
+    gdone := hearly
+    recvd := fun g hr => hearly g (hi.recvd_gdone g false hr)
+    ret := by intro ls e h; rw [hret] at h; cases h }
+  exact (done_exec ops2 hd hnc).ret
+
+/-- an Apple instance: three logs, a 12-month certificate (two SCTs needed); two answer, then the third goroutine
+sees the group complete -/
+def runA : Run := ⟨[⟨0, [1, 2, 3], 2, true⟩], fun g => if g = 0 then [1, 2, 3] else []⟩
+example : policyCfg .apple 12 [⟨1, true, true, none, none⟩, ⟨2, false, true, none, none⟩, ⟨3, false, true, none, none⟩] = some runA.cfg ∧
+    (exec runA (St.init runA) [.timerFire 0 1, .request 0 1, .timerFire 0 2, .request 0 2, .setResult 0 1 true,
+      .setResult 0 2 true, .timerFire 0 3, .groupDone 0, .recv 0, .collect]).ret = some ([1, 2], false) := by decide
+
 /-- instance of `liveness_partial`: in `run2` both logs answer before the All-logs race has ended -/
 def opsInTime : List Op := [.timerFire 1 1, .request 1 1, .timerFire 2 2, .request 2 2,
   .timerFire 0 1, .request 0 1, .setResult 1 1 true, .setResult 2 2 true, .timerFire 0 2]
@@ -434,19 +317,16 @@ open Gen.Policy in
 that are not shared yet -/
 def sufficient (a : Gen.Policy.Access) : Bool := a.ctor || (if a.write then a.mode == 2 else a.mode ≥ 1)
 
-/-- the accesses recorded as finding F10b (function, field): reads of a guarded field before / without the lock -/
-def knownUnguarded : List (String × String) :=
-  [("LogGroupInfo.SetLogWeight", "LogWeights"), ("LogGroupInfo.GetSubmissionSession", "LogWeights"),
-   ("Proxy.AddPreChain", "dist"), ("Proxy.AddChain", "dist"), ("ProxyServer.HandleInfo", "dist"),
-   ("LogListManager.ProduceClientLogList", "latestLL")]
+/-- **lock_table_guarded**: in the regenerated table of every access to a mutex-guarded field of `LogGroupInfo`,
+`Distributor`, `Proxy`, `safeSubmissionState`, `LogListManager`, `logListRefresherImpl`, every access outside the
+constructors holds its guard: `Lock` for a write, `RLock` or `Lock` for a read. (Before the fix commit 69f2a9b six
+accesses did not — finding F10b: `GetSubmissionSession` / `SetLogWeight` on `LogWeights`, `Proxy.AddChain` /
+`AddPreChain` / `ProxyServer.HandleInfo` on `dist`, `ProduceClientLogList` on `latestLL` — and this theorem did not
+check.) With `lockset`, conflicting accesses to these fields are ordered by the guard. -/
+theorem lock_table_guarded : ∀ a ∈ Gen.Policy.lockTable, sufficient a = true := by decide
 
-/- FULL: `∀ a ∈ Gen.Policy.lockTable, sufficient a = true` — false on the unchanged tree (finding F10b: the six
-   accesses of `knownUnguarded`); it becomes provable by `decide` once fixes/C17-1.diff is applied. -/
-/-- **lock_table_partial**: in the regenerated table of every access to a mutex-guarded field of `LogGroupInfo`,
-`Distributor`, `Proxy`, `safeSubmissionState`, `LogListManager`, `logListRefresherImpl`, every access holds its
-guard in a sufficient mode, except the accesses listed in `knownUnguarded`. -/
-theorem lock_table_partial :
-    ∀ a ∈ Gen.Policy.lockTable, sufficient a = false → (a.fn, a.field) ∈ knownUnguarded := by decide
+example : 30 ≤ (Gen.Policy.lockTable.filter (fun a => !a.ctor)).length ∧
+    (Gen.Policy.lockTable.filter (fun a => !a.ctor && a.write)).length ≥ 10 := by decide
 
 /-- every write to a guarded field of the submission state machine itself happens under `mu` -/
 theorem submission_state_fully_guarded :
@@ -456,7 +336,7 @@ theorem submission_state_fully_guarded :
 theorem distributor_roots_fully_guarded :
     ∀ a ∈ Gen.Policy.lockTable, a.struct = "Distributor" → sufficient a = true := by decide
 
-example : (Gen.Policy.lockTable.filter (fun a => a.struct == "safeSubmissionState" && !a.ctor)).length = 14 := by decide
+example : 10 ≤ (Gen.Policy.lockTable.filter (fun a => a.struct == "safeSubmissionState" && !a.ctor)).length := by decide
 
 /-- **lockset**: a trace that obeys the mutex semantics and in which every access holds its guard (write mode for
 writes) orders any two conflicting accesses by a release of the guard. (`CTV.Lockset.lockset_sound`.) -/
